@@ -38,7 +38,13 @@ func Report(verifDir string, m *Merged, start time.Time, writeEvidence bool) int
 
 	exit := 0
 	// replay files
-	replayDir := filepath.Join(verifDir, "replays")
+	// VERIF_OUT redirects evidence and replay files (used when a seeded change is tried on a
+	// scratch copy of the repository: the evidence of the real tree must not be overwritten)
+	outDir := verifDir
+	if o := os.Getenv("VERIF_OUT"); o != "" {
+		outDir = o
+	}
+	replayDir := filepath.Join(outDir, "replays")
 	printed := map[string]bool{}
 	for _, v := range real {
 		os.MkdirAll(replayDir, 0o755)
@@ -164,9 +170,9 @@ func Report(verifDir string, m *Merged, start time.Time, writeEvidence bool) int
 		if p.Assumptions == nil {
 			ev["assumptions"] = []string{}
 		}
-		os.MkdirAll(filepath.Join(verifDir, "evidence"), 0o755)
+		os.MkdirAll(filepath.Join(outDir, "evidence"), 0o755)
 		b, _ := json.MarshalIndent(ev, "", " ")
-		ioutil.WriteFile(filepath.Join(verifDir, "evidence", p.ID+".json"), append(b, '\n'), 0o644)
+		ioutil.WriteFile(filepath.Join(outDir, "evidence", p.ID+".json"), append(b, '\n'), 0o644)
 	}
 	fmt.Printf("RESULT property=%s tier=%s seed=%d cases=%d/%d evaluations=%d distinct_nontrivial=%d violations=%d known=%d inconclusive=%d wall=%.1fs\n",
 		p.ID, m.Tier, m.Seed, m.Executed, m.Cases, m.Evaluations, len(m.Fingerprints), len(real), len(knownSeen), len(m.Inconclusive), time.Since(start).Seconds())
